@@ -7,7 +7,7 @@ Require Import BB.Base.Str BB.Base.Xml BB.Base.Dict BB.Model.PegSyntax BB.Model.
 Require Import BB.Gen.Grammar BB.Gen.TablesTypes BB.Gen.TablesXsl BB.Gen.TablesReadme.
 Require Import BB.Proofs.Tables BB.Proofs.KeywordElement BB.Proofs.HierShape.
 Require Import BB.Model.Eid BB.Model.EidSpec BB.Model.PreParse BB.Model.Convert BB.Gen.TablesParser BB.Gen.TablesLibs BB.Proofs.EscapeLossless.
-Require Import BB.Proofs.PegEscape BB.Proofs.PegPlain BB.Proofs.PegLine BB.Proofs.LineRule BB.Proofs.PlainLine BB.Proofs.PlainLineConvert BB.Proofs.HierElement BB.Proofs.HierElementConvert BB.Proofs.HierNoHeading BB.Proofs.HierNoHeadingConvert BB.Proofs.HierChain BB.Proofs.PreParseStair BB.Proofs.HierChainConvert.
+Require Import BB.Proofs.PegEscape BB.Proofs.PegPlain BB.Proofs.PegLine BB.Proofs.LineRule BB.Proofs.PlainLine BB.Proofs.PlainLineConvert BB.Proofs.HierElement BB.Proofs.HierElementConvert BB.Proofs.HierNoHeading BB.Proofs.HierNoHeadingConvert BB.Proofs.CrossheadingConvert BB.Proofs.HierChain BB.Proofs.PreParseStair BB.Proofs.HierChainConvert.
 
 (* README.md against akn.peg and types.py (all three regenerated from /repo on every run) *)
 Theorem C04_readme_keywords_in_grammar : subset readme_line_keywords (keywords akn_peg) = true.
@@ -194,6 +194,21 @@ Example C04_hier_element_without_heading_example :
           (of_string "SUBSEC (2)" ++ NL :: NL :: of_string "    The Minister may / delegate 50% of_them" ++ [NL])
   = OkR (hier_x_nh (of_string "subsection") [(EID, of_string "sec_4__subsec_2")] [(EID, of_string "sec_4__subsec_2__p_1")]
                    (of_string "(2)") (of_string "The Minister may / delegate 50% of_them")).
+Proof. vm_compute. reflexivity. Qed.
+
+(* A crossheading through the WHOLE pipeline model: `CROSSHEADING text` - the text given as plain characters and escapes - converts, as a
+   fragment, to <crossHeading eId="<prefix__>crossHeading_1">text</crossHeading> (Proofs/CrossheadingConvert.v). *)
+Theorem C04_crossheading_converts : forall uri prefix ut root_meta att_meta,
+  assoc_str uri meta_templates = Some (root_meta, att_meta) ->
+  written_text ut ->
+  convert uri (of_string "hier_element") prefix (CH ++ 32 :: encode ut ++ [NL])
+  = OkR (El CHT [(EID, candidate prefix CHT (of_string "1"))] [Tx (decode ut)]).
+Proof. exact crossheading_converts. Qed.
+Print Assumptions C04_crossheading_converts.
+
+Example C04_crossheading_example :
+  convert (of_string "/akn/za/act/2009/1") (of_string "hier_element") (of_string "chp_1") (of_string "CROSSHEADING Powers * of \*\* the {Minister}" ++ [NL])
+  = OkR (El CHT [(EID, of_string "chp_1__crossHeading_1")] [Tx (of_string "Powers * of ** the {Minister}")]).
 Proof. vm_compute. reflexivity. Qed.
 
 (* the instance the theorem predicts, evaluated: a synonym keyword, a num with punctuation, three blanks of indentation *)
